@@ -212,3 +212,16 @@ package tree
 //@   loop 0 invariant allstr(k, $visited[k] ==> present(c.cases, k) && bestCasePrio <= c.cases[k].GetLowestPriorityValue())
 //@   loop 0 invariant bestCaseName == "" ==> bestCasePrio == 2147483647
 //@   loop 0 invariant bestCaseName != "" ==> present(c.cases, bestCaseName) && c.cases[bestCaseName].GetLowestPriorityValue() == bestCasePrio && bestCasePrio < 2147483647
+
+// the members to skip are exactly the members of the cases that lost
+//@ func (*choiceCasesResolver).GetSkipElements
+//@   props C08
+//@   requires resolverOK(c) && c.elementToCaseMapping != nil
+//@   modifies nothing
+//@   internal only_losing_members: forall(i, 0, len(result), present(c.elementToCaseMapping, result[i]) &&
+//@            c.elementToCaseMapping[result[i]] != callres(getBestCaseName))
+//@   internal every_losing_member: allstr(k, present(c.elementToCaseMapping, k) && c.elementToCaseMapping[k] != callres(getBestCaseName) ==>
+//@            exists(i, 0, len(result), result[i] == k))
+//@   loop 0 invariant $map == c.elementToCaseMapping && fresh(result) && unchanged(allelems(string))
+//@   loop 0 invariant forall(i, 0, len(result), present(c.elementToCaseMapping, result[i]) && c.elementToCaseMapping[result[i]] != callres(getBestCaseName))
+//@   loop 0 invariant allstr(k, $visited[k] && c.elementToCaseMapping[k] != callres(getBestCaseName) ==> exists(i, 0, len(result), result[i] == k))
